@@ -77,12 +77,12 @@ theorem closes_sound (q : Nat → Bool) (s : Stmt) (h : closes q s = true) :
 /-- The translator understood every construct of every listed function of the current source. -/
 theorem translator_understood_everything : unknowns = [] := by decide
 
-/-- Only the functions modelled here (and `pyramid.testing.setUp/tearDown`, which reset the stack on purpose) touch
-the manager's stack anywhere in the package. -/
-theorem push_pop_owners_covered : ∀ f ∈ pushPopOwners, f ∈
-    ["testing.py:setUp", "testing.py:tearDown", "threadlocal.py:RequestContext.begin",
-     "threadlocal.py:RequestContext.end", "view.py:ViewMethodsMixin.invoke_exception_view",
-     "config/__init__.py:Configurator.begin", "config/__init__.py:Configurator.end"] := by decide
+/-- Every function of the package that touches the manager's stack (whole-package scan) is one whose skeleton is
+translated and decided below — a listed function, or a module-level `@contextmanager` helper that a listed function
+enters (such helpers are themselves entry points: balanced around any balanced body) — or one of
+`pyramid.testing.setUp/tearDown`, which reset the stack on purpose. -/
+theorem push_pop_owners_covered : ∀ f ∈ pushPopOwners,
+    f ∈ modelledOwners ++ ["testing.py:setUp", "testing.py:tearDown"] := by decide
 
 /-- Generated obligation: every entry point of the current source (Router.__call__, default_execution_policy,
 invoke_request, invoke_subrequest, handle_request, finish_request, request_context, the callback loops,
